@@ -304,9 +304,10 @@ def check_first_call(rec):
                     for a in ('S!C2', 'S!B2')],
                 'evaluate': lambda: [prepared.evaluate(a)
                                      for a in ('S!C2', 'S!B2')],
-                'set_value': lambda: (prepared2.set_value('S!A1', 1),
+                'set_value': lambda: (prepared2.set_value('S!A1', 3),
+                                      prepared2.set_value('S!A1', 1),
                                       [prepared2.evaluate(a)
-                                       for a in ('S!C2', 'S!B2')])[1],
+                                       for a in ('S!C2', 'S!B2')])[2],
                 'trim_graph': lambda: (prepared3.trim_graph(
                     ['S!A1'], ['S!C2', 'S!B2']), [prepared3.evaluate(a)
                                                   for a in ('S!C2', 'S!B2')])[1],
